@@ -32,9 +32,20 @@ func driveRingBig(opt *Options) error {
 		if t%3 == 2 && c <= 20000 {
 			mk = newRingPtr
 		}
+		unit := t%7 == 3 // elements of size zero: only counts, errors and panics are observable
+		if unit {
+			mk = newRingUnit
+		}
+		if t%11 == 5 {
+			// beyond 2^20 elements (an implementation may treat very large buffers differently, e.g. replace the array
+			// instead of wiping it)
+			c = 1<<20 + 500 + rnd.Intn(1000)
+			mk, unit = newRingInt, false
+		}
+		huge := c > 1<<20
 		o := mk(c)
 		next := 1 + rnd.Intn(1000)
-		tw.Emit(map[string]any{"op": "New", "cap": c, "first": next})
+		tw.Emit(map[string]any{"op": "New", "cap": c, "first": next, "unit": unit})
 		dead := false
 		do := func(s Step) {
 			if dead {
@@ -76,6 +87,21 @@ func driveRingBig(opt *Options) error {
 			}
 			return n
 		}
+		if huge {
+			do(Step{"op": "WriteRun", "n": c + 1})
+			do(Step{"op": "Clear"})
+			do(Step{"op": "Cap"})
+			do(Step{"op": "Len"})
+			do(Step{"op": "WriteRun", "n": c + 1}) // to the brim again: exactly Cap elements fit
+			do(Step{"op": "Skip", "n": c/2 + rnd.Intn(100)})
+			do(Step{"op": "Read"})
+			do(Step{"op": "Clear"})
+			do(Step{"op": "WriteRun", "n": c + 2})
+			do(Step{"op": "Len"})
+			do(Step{"op": "At", "i": c - 1})
+			do(Step{"op": "Cap"})
+			continue
+		}
 		for round := 0; round < rounds && !dead; round++ {
 			// write: to the brim, one past it, or part of the free space
 			free := o.Cap() - o.Len()
@@ -88,7 +114,7 @@ func driveRingBig(opt *Options) error {
 			}
 			do(Step{"op": "WriteRun", "n": w})
 			do(Step{"op": "Len"})
-			if rnd.Intn(3) == 0 {
+			if rnd.Intn(3) == 0 && !unit {
 				do(Step{"op": "Scan"})
 			}
 			n := amount()
@@ -119,7 +145,7 @@ func driveRingBig(opt *Options) error {
 				do(Step{"op": "At", "i": rnd.Intn(ln)})
 			}
 			do(Step{"op": "At", "i": o.Len()})
-			if rnd.Intn(2) == 0 {
+			if rnd.Intn(2) == 0 && !unit {
 				do(Step{"op": "Scan"})
 			}
 			if rnd.Intn(7) == 0 {
@@ -127,7 +153,9 @@ func driveRingBig(opt *Options) error {
 				do(Step{"op": "Read"})
 			}
 		}
-		do(Step{"op": "Scan"})
+		if !unit {
+			do(Step{"op": "Scan"})
+		}
 		do(Step{"op": "Cap"})
 	}
 	return nil
